@@ -115,15 +115,6 @@ Definition num_valid (m : mode) (e : N) (l : list rec) : nat :=
 Definition get_valid_rrcs (m : mode) (e : N) (l : list rec) : list rec :=
   firstn (num_valid m e l) l.
 
-(* the same on a sorted list, structurally (proved equal in SchedProofs) *)
-Fixpoint take_valid (m : mode) (e : N) (l : list rec) : list rec :=
-  match l with
-  | [] => []
-  | r :: t =>
-    if (match m with RecentFirst => rts r <? e | RecentLast => e <? rts r end) then []
-    else r :: take_valid m e t
-  end.
-
 (* ---------------- segment level ---------------- *)
 
 Definition should_process_block (m : mode) (c : N) (b : block) : bool :=
